@@ -14,13 +14,14 @@ func init() { register("C15", propC15) }
 const storeBase = "index/upsidedown/store/"
 
 func propC15(r *Report, tier string) {
-	r.Explanation = "Structural necessary conditions of 'KV adapters are ordered maps with atomic batches and snapshot readers' as sibling agreement over the adapters registered with RegisterKVStore (boltdb, goleveldb, gtreap, moss, metrics): (a) every adapter's ExecuteBatch handles merges (through the configured merge operator with the existing value), sets and deletes, or hands the whole batch object to one engine batch write; (b) atomic shape: boltdb = one writable tx with deferred Commit/Rollback around all writes; gtreap = built on a local copy-on-write root published by a single store under the store mutex, released on all exits; goleveldb/moss = exactly one engine batch write; (c) snapshot readers: Store.Reader obtains the engine's snapshot primitive and Reader/Iterator types never touch the live handle; gtreap items are immutable once inserted (no store to Item fields outside literals), so an old reader's root can never change; (d) K1 lock pairing inside the adapters; (e) moss pre-sized batches: every mutating Batch method accounts its bytes in bufUsed when a buffer is attached (ExecuteBatch appends merge operands after bufUsed). (f) K8 moss's prefix successor keeps the incremented byte and drops the overflowed ones."
+	r.Explanation = "Structural necessary conditions of 'KV adapters are ordered maps with atomic batches and snapshot readers' as sibling agreement over the adapters registered with RegisterKVStore (boltdb, goleveldb, gtreap, moss, metrics): (a) every adapter's ExecuteBatch handles merges (through the configured merge operator with the existing value), sets and deletes, or hands the whole batch object to one engine batch write; (b) atomic shape: boltdb = one writable tx with deferred Commit/Rollback around all writes; gtreap = built on a local copy-on-write root published by a single store under the store mutex, released on all exits; goleveldb/moss = exactly one engine batch write; (c) snapshot readers: Store.Reader obtains the engine's snapshot primitive and Reader/Iterator types never touch the live handle; gtreap items are immutable once inserted (no store to Item fields outside literals), so an old reader's root can never change; (d) K1 lock pairing inside the adapters; (e) moss pre-sized batches: every mutating Batch method accounts its bytes in bufUsed when a buffer is attached (ExecuteBatch appends merge operands after bufUsed). (f) K8 moss's prefix successor keeps the incremented byte and drops the overflowed ones. (g) Kerr error discipline over index/upsidedown and its store adapters (same rule as C03(i); three named exceptions for moss's end-of-iteration errors and leveldb GetSnapshot)."
 	r.NotCovered = "byte-order iteration, seek semantics, merge results, correctness of the engines themselves (bbolt, goleveldb, moss, gtreap)"
 	ruleAdaptersRegistered(r, "K13-adapters")
 	ruleExecuteBatchShapes(r, "K12-execute-batch")
 	ruleSnapshotReaders(r, "K7-snapshot-readers")
 	ruleTreapItemsImmutable(r, "K6-treap-items-immutable")
 	ruleMossBufAccounting(r, "K12-moss-buffer-accounting")
+	ruleErrorsLookedAt(r, "Kerr-errors-looked-at", func(rel string) bool { return strings.HasPrefix(rel, storeBase) || rel == "index/upsidedown" }, errAllowStores)
 	ruleSuccessorKeepsIncrementedByte(r, "K8-prefix-successor", func(rel string) bool { return strings.HasPrefix(rel, storeBase) }, 1)
 	k1Locks(r, "K1-lock-pairing", func(rel string) bool { return strings.HasPrefix(rel, storeBase) })
 	r.Floor("K13-adapters", 5)
@@ -273,4 +274,10 @@ func ruleMossBufAccounting(r *Report, rule string) {
 		}
 		r.Ob(rule, "moss.Batch."+m+"/accounts-bytes-in-bufUsed", fi.Decl.Pos(), ok, "with a pre-sized buffer attached every byte-slice argument of Batch."+m+" is accounted in bufUsed; ExecuteBatch later copies merge operands into the buffer starting at bufUsed, so an unaccounted method makes it overwrite operands that are still referenced")
 	}
+}
+
+var errAllowStores = map[string]string{
+	"index/upsidedown/store/goleveldb.(*Store).Reader/GetSnapshot": "leveldb GetSnapshot only fails on a closed DB; the resulting reader has a nil snapshot and fails on first use (use-after-Close is outside the KVStore contract)",
+	"index/upsidedown/store/moss.(*Iterator).Seek/SeekTo":          "moss signals 'no such key / iterator done' through the error result; the adapter re-reads the position with Current()",
+	"index/upsidedown/store/moss.(*Iterator).Next/Next":            "moss signals end of iteration through the error result; the adapter re-reads the position with Current()",
 }
